@@ -126,7 +126,7 @@ class ExprMixin(ExecBase):
         if v.ty.kind == "ref":
             rec, fty = S.lookup_field(v.ty.name, attr)
             if rec is not None:
-                yield st.heap.read(rec, attr, fty, v.t), st
+                yield self.wf(st, st.heap.read(rec, attr, fty, v.t)), st
                 return
             c = S.lookup_method(v.ty.name, attr)
             if c is not None:
